@@ -474,6 +474,10 @@ void DocumentBuilder::proc_instance_line() { currentInstanceLine = &currentTempl
  */
 void DocumentBuilder::instance_name(const char* name, bool templ)
 {
+    if (!currentTemplate || !currentInstanceLine) {
+        handle_error(TypeException{"Must be declared inside of an instance line of an LSC template"});
+        return;
+    }
     symbol_t uid;
     if (templ) {
         string instName = string(name);
@@ -546,6 +550,8 @@ void DocumentBuilder::instance_name_end(const char* name, size_t arguments)
             }
             i_name += ')';
             instance_name(i_name.c_str());  // std::cout << "instance line name: " << i_name << std::endl;
+            if (!currentTemplate || !currentInstanceLine)
+                return;  // reported by instance_name
             /* Create template composition.
              */
             currentInstanceLine->add_parameters(*old_instance, params, exprs);
